@@ -143,6 +143,48 @@ func samePaths(a, b map[string]bool) bool {
 	return true
 }
 
+// unitAtResponsePath resolves an error path (response keys and list indices) against the
+// operation and returns the unit the last key selects, if any.
+func (w *world) unitAtResponsePath(p *parsedOp, path []any) *unit {
+	defs := []*ast.Definition{p.root}
+	sets := []ast.SelectionSet{p.op.SelectionSet}
+	var last *unit
+	for _, el := range path {
+		key, ok := el.(string)
+		if !ok {
+			continue // list index
+		}
+		last = nil
+		var nextDef *ast.Definition
+		var nextSets []ast.SelectionSet
+		for _, def := range defs {
+			for _, t := range w.possible(def) {
+				for _, c := range w.collect(sets, t) {
+					if c.key != key || nextDef != nil {
+						continue
+					}
+					fd := t.Fields.ForName(c.fields[0].Name)
+					if fd == nil {
+						continue
+					}
+					last = w.units[t.Name+"."+fd.Name]
+					nextDef = w.schema.Types[fd.Type.Name()]
+					for _, ff := range c.fields {
+						if len(ff.SelectionSet) > 0 {
+							nextSets = append(nextSets, ff.SelectionSet)
+						}
+					}
+				}
+			}
+		}
+		if nextDef == nil {
+			return nil
+		}
+		defs, sets = []*ast.Definition{nextDef}, nextSets
+	}
+	return last
+}
+
 // ---- response walk: shape oracle + value extraction -----------------------------------------
 
 type response struct {
